@@ -41,6 +41,10 @@ def generate(tier, seed, shard, nshards):
                 lv, n = spec['level'], c['n']
                 spec['shape'] = 'triangle'
                 spec['points'] = [(0, 0.0), (2, 0.0), (n // 6, lv), (n // 3, 0.0), (n, 0.0)]
+            elif spec['shape'] == 'constant':
+                lv, n = spec['level'], c['n']
+                spec['shape'] = 'step-down'
+                spec['points'] = [(0, lv), (n // 4, lv), (n // 4 + 1, 0.0), (n, 0.0)]
         yield {'kind': 'sim', **c}
         if rng.random() < 0.35:
             from .C10 import swept
@@ -119,6 +123,7 @@ def judge(case, ctx, prefix='C11'):
     if out is None:
         return
     n = case['n']
+    cd = out['cd']                                 # the circuit actually simulated (time-scaled for integer grids)
     last = max(k for spec in case['inputs'].values() for k, v in spec['points'] if v != 0) + 1
     last = max(last, max((k for spec in case['inputs'].values() for (k, v) in spec['points'][:-1]), default=0))
     E = np.zeros(n + 1)
